@@ -60,7 +60,7 @@ P = {
          "net/http cookie sanitising and strconv semantics trusted."),
 }
 
-CLAIMED = ["C13"]
+CLAIMED = ["C03", "C13"]
 
 def main():
     checks = []
@@ -87,7 +87,7 @@ def main():
         "hooks": {
             "guard": "verif",
             "enable": "none needed: static analysis reads the unmodified source of /repo's working tree (no hooks, no instrumentation)",
-            "baseline_off_cmd": "cd /repo && go test -vet=off -count=1 ./...",
+            "baseline_off_cmd": "cd /repo && GOFLAGS=-mod=mod GOPROXY=off GOSUMDB=off go test -json -vet=off -count=1 -timeout 25m ./...",
             "source_commits": [],
             "add_only": True,
         },
